@@ -247,7 +247,7 @@ def build(tier, seed):
     if tier == "quick":
         sizes = [(3, [(0, 0), (1, 0)], 5, 1)]
     else:
-        sizes = [(3, [(0, 0), (1, 0), (2, 0), (0, 1), (1, 2)], 20, 3), (4, [(0, 0), (1, 0)], 2, 0)]
+        sizes = [(3, [(0, 0), (1, 0), (2, 0), (0, 1), (1, 2)], 14, 2), (4, [(0, 0), (1, 0)], 2, 0)]
     turn = 0
     for (n, tmpl, per, per_speed) in sizes:
         for (o, b, l, tw) in VARIANTS:
